@@ -191,6 +191,195 @@ theorem mem_removeWithDescendants (s : Store) (id : Nat) (u : UTx) :
     | false => rfl
     | true => exact absurd ((doomed_iff s id u.id).mp (List.contains_iff_mem.mp hc)) hnd
 
+/-! ## the literal depth-first `removeConflict` agrees with the closure -/
+
+/-- every spend edge of a recorded transaction points to an id of lower rank (ids are hashes of contents that
+include the spent ids) -/
+def Ranked (rank : Nat → Nat) (U : List UTx) : Prop := ∀ u ∈ U, ∀ x, u.spends x = true → rank x < rank u.id
+
+def above (rank : Nat → Nat) (U : List UTx) (id : Nat) : Nat := (U.filter fun u => decide (rank id < rank u.id)).length
+
+theorem desc_mono {U U' : List UTx} (h : ∀ u ∈ U', u ∈ U) {a x : Nat} (hd : Desc U' a x) : Desc U a x := by
+  induction hd with
+  | self => exact Desc.self
+  | step _ hu hsp ih => exact Desc.step ih (h _ hu) hsp
+
+theorem desc_trans {U : List UTx} {a b x : Nat} (hab : Desc U a b) (hbx : Desc U b x) : Desc U a x := by
+  induction hbx with
+  | self => exact hab
+  | step _ hu hsp ih => exact Desc.step ih hu hsp
+
+/-- the store with the ids in `R` removed -/
+def sOf (s : Store) (R : List Nat) : Store := { s with unmined := s.unmined.filter fun u => !R.contains u.id }
+
+theorem mem_sOf {s : Store} {R : List Nat} {u : UTx} : u ∈ (sOf s R).unmined ↔ u ∈ s.unmined ∧ u.id ∉ R := by
+  simp only [sOf, List.mem_filter, Bool.not_eq_true']
+  constructor
+  · rintro ⟨hu, hc⟩
+    refine ⟨hu, fun hm => ?_⟩
+    rw [List.contains_iff_mem.mpr hm] at hc; cases hc
+  · rintro ⟨hu, hn⟩
+    refine ⟨hu, ?_⟩
+    cases hc : R.contains u.id with
+    | false => rfl
+    | true => exact absurd (List.contains_iff_mem.mp hc) hn
+
+theorem sOf_remove (s : Store) (R : List Nat) (c : Nat) :
+    removeWithDescendants (sOf s R) c = sOf s (R ++ doomed (sOf s R) c) := by
+  simp only [removeWithDescendants, sOf, List.filter_filter]
+  congr 1
+  apply List.filter_congr
+  intro u _
+  simp only [List.contains_append, Bool.not_or]
+  exact Bool.and_comm _ _
+
+theorem above_lt {rank : Nat → Nat} {s : Store} {R : List Nat} {id : Nat} {c : UTx}
+    (hc : c ∈ s.unmined) (hrk : rank id < rank c.id) :
+    above rank (sOf s R).unmined c.id < above rank s.unmined id := by
+  have hsub : (sOf s R).unmined.filter (fun u => decide (rank c.id < rank u.id)) =
+      (s.unmined.filter (fun u => decide (rank id < rank u.id))).filter
+        (fun u => decide (rank c.id < rank u.id) && !R.contains u.id) := by
+    simp only [sOf, List.filter_filter]
+    apply List.filter_congr
+    intro u _
+    by_cases h1 : rank c.id < rank u.id
+    · have h2 : rank id < rank u.id := by omega
+      simp [h1, h2]
+    · simp [h1]
+  unfold above
+  rw [hsub]
+  apply List.length_filter_lt_length_iff_exists.mpr
+  refine ⟨c, List.mem_filter.mpr ⟨hc, by simpa using hrk⟩, ?_⟩
+  simp
+
+theorem ranked_sOf {rank : Nat → Nat} {s : Store} (R : List Nat) (h : Ranked rank s.unmined) :
+    Ranked rank (sOf s R).unmined :=
+  fun u hu x hx => h u (mem_sOf.mp hu).1 x hx
+
+section fold
+variable (rank : Nat → Nat) (fuel : Nat) (s : Store) (id : Nat)
+
+def Sound (R : List Nat) : Prop := ∀ x ∈ R, Desc s.unmined id x
+def ClosedIn (R : List Nat) : Prop := ∀ x ∈ R, ∀ u ∈ s.unmined, u.spends x = true → u.id ∈ R
+
+theorem fold_inv
+    (IH : ∀ (s' : Store) (c : Nat), Ranked rank s'.unmined → above rank s'.unmined c + 1 ≤ fuel →
+      removeConflictDFS fuel s' c = removeWithDescendants s' c)
+    (hR : Ranked rank s.unmined) (hfuel : above rank s.unmined id ≤ fuel) :
+    ∀ (C : List UTx) (R : List Nat), (∀ c ∈ C, c ∈ s.unmined ∧ c.spends id = true) → Sound s id R → ClosedIn s R →
+      ∃ R', C.foldl (fun s sp => if s.has sp.id then removeConflictDFS fuel s sp.id else s) (sOf s R) = sOf s R' ∧
+        Sound s id R' ∧ ClosedIn s R' ∧ (∀ x ∈ R, x ∈ R') ∧ (∀ c ∈ C, c.id ∈ R') := by
+  intro C
+  induction C with
+  | nil => intro R _ hs hc; exact ⟨R, rfl, hs, hc, fun _ h => h, by intro c hc; cases hc⟩
+  | cons c cs ih =>
+    intro R hC hs hcl
+    obtain ⟨hcU, hcsp⟩ := hC c List.mem_cons_self
+    have hCs : ∀ c' ∈ cs, c' ∈ s.unmined ∧ c'.spends id = true := fun c' h => hC c' (List.mem_cons_of_mem _ h)
+    simp only [List.foldl_cons]
+    by_cases hhas : (sOf s R).has c.id = true
+    · -- recurse into c
+      have hrk : rank id < rank c.id := hR c hcU id hcsp
+      have hfu : above rank (sOf s R).unmined c.id + 1 ≤ fuel := by
+        have := above_lt (R := R) hcU hrk; omega
+      rw [if_pos hhas, IH _ _ (ranked_sOf R hR) hfu, sOf_remove]
+      have hdc : Desc s.unmined id c.id := Desc.step Desc.self hcU hcsp
+      have hs' : Sound s id (R ++ doomed (sOf s R) c.id) := by
+        intro x hx
+        rcases List.mem_append.mp hx with h | h
+        · exact hs x h
+        · exact desc_trans hdc (desc_mono (fun u hu => (mem_sOf.mp hu).1) ((doomed_iff _ _ _).mp h))
+      have hcl' : ClosedIn s (R ++ doomed (sOf s R) c.id) := by
+        intro x hx u hu hsp
+        by_cases huR : u.id ∈ R
+        · exact List.mem_append_left _ huR
+        · rcases List.mem_append.mp hx with h | h
+          · exact absurd (hcl x h u hu hsp) huR
+          · have hu' : u ∈ (sOf s R).unmined := mem_sOf.mpr ⟨hu, huR⟩
+            exact List.mem_append_right _ ((doomed_iff _ _ _).mpr (Desc.step ((doomed_iff _ _ _).mp h) hu' hsp))
+      obtain ⟨R', h1, h2, h3, h4, h5⟩ := ih _ hCs hs' hcl'
+      refine ⟨R', h1, h2, h3, fun x hx => h4 x (List.mem_append_left _ hx), ?_⟩
+      intro c' hc'
+      rcases List.mem_cons.mp hc' with rfl | h
+      · exact h4 _ (List.mem_append_right _ ((doomed_iff _ _ _).mpr Desc.self))
+      · exact h5 c' h
+    · -- already removed by an earlier branch
+      rw [if_neg hhas]
+      obtain ⟨R', h1, h2, h3, h4, h5⟩ := ih R hCs hs hcl
+      refine ⟨R', h1, h2, h3, h4, ?_⟩
+      intro c' hc'
+      rcases List.mem_cons.mp hc' with rfl | h
+      · apply h4
+        -- c' is in s but not in sOf s R, so its id is in R
+        cases hcR : R.contains c'.id with
+        | true => exact List.contains_iff_mem.mp hcR
+        | false =>
+          exfalso
+          apply hhas
+          have : c' ∈ (sOf s R).unmined := mem_sOf.mpr ⟨hcU, fun hm => by rw [List.contains_iff_mem.mpr hm] at hcR; cases hcR⟩
+          exact List.any_eq_true.mpr ⟨c', this, by simp⟩
+      · exact h5 c' h
+
+end fold
+
+theorem sOf_nil (s : Store) : sOf s [] = s := by
+  cases s
+  simp [sOf]
+
+/-- **The literal depth-first `removeConflict` removes exactly the descendant closure** (so every theorem about
+`removeWithDescendants` is a theorem about the transcription of the Go function). -/
+theorem removeConflictDFS_eq_closure (rank : Nat → Nat) : ∀ (fuel : Nat) (s : Store) (id : Nat), Ranked rank s.unmined →
+    above rank s.unmined id + 1 ≤ fuel → removeConflictDFS fuel s id = removeWithDescendants s id := by
+  intro fuel
+  induction fuel with
+  | zero => intro s id _ h; omega
+  | succ fuel IH =>
+    intro s id hR hfuel
+    have hC : ∀ c ∈ s.unmined.filter (·.spends id), c ∈ s.unmined ∧ c.spends id = true :=
+      fun c hc => List.mem_filter.mp hc
+    obtain ⟨R, h1, hs, hcl, _, hch⟩ := fold_inv rank fuel s id IH hR (by omega) _ [] hC
+      (by intro x hx; cases hx) (by intro x hx; cases hx)
+    rw [sOf_nil] at h1
+    simp only [removeConflictDFS, h1]
+    -- both sides are filters of s.unmined; compare the predicates pointwise
+    simp only [removeWithDescendants, sOf, List.filter_filter]
+    congr 1
+    apply List.filter_congr
+    intro u hu
+    -- every descendant is `id` or in R
+    have hall : ∀ x, Desc s.unmined id x → x = id ∨ x ∈ R := by
+      intro x hx
+      induction hx with
+      | self => exact Or.inl rfl
+      | step _ hv hsp ih =>
+        rename_i p v _
+        rcases ih with rfl | hp
+        · exact Or.inr (hch v (List.mem_filter.mpr ⟨hv, hsp⟩))
+        · exact Or.inr (hcl p hp v hv hsp)
+    by_cases hd : Desc s.unmined id u.id
+    · have hdm : (doomed s id).contains u.id = true := List.contains_iff_mem.mpr ((doomed_iff s id u.id).mpr hd)
+      rw [hdm]
+      rcases hall _ hd with h | h
+      · simp [h]
+      · simp [h]
+    · have hdm : (doomed s id).contains u.id = false := by
+        cases hc : (doomed s id).contains u.id with
+        | false => rfl
+        | true => exact absurd ((doomed_iff s id u.id).mp (List.contains_iff_mem.mp hc)) hd
+      rw [hdm]
+      have h1 : u.id ≠ id := fun h => hd (h ▸ Desc.self)
+      have h2 : u.id ∉ R := fun hm => hd (hs _ hm)
+      simp [h1, h2]
+
+
+/-- **`removeConflict` as written (depth-first, `Publish.removeConflictDFS` with the fuel the driver uses) removes
+exactly the transaction and its unconfirmed descendants** — `removeWithDescendants`, about which the theorems above
+speak — on every store whose spend edges respect some rank (hash-linked transactions). -/
+theorem C20_removeConflict_dfs (s : Store) (id : Nat) (hrank : ∃ rank, Ranked rank s.unmined) :
+    removeConflictDFS (s.unmined.length + 1) s id = removeWithDescendants s id := by
+  obtain ⟨rank, hR⟩ := hrank
+  exact removeConflictDFS_eq_closure rank _ s id hR (by unfold above; have := List.length_filter_le (fun u => decide (rank id < rank u.id)) s.unmined; omega)
+
 /-! ## The property theorems: rejected broadcast -/
 
 /-- **A failed broadcast forgets the transaction and every unconfirmed transaction spending its outputs, nothing
@@ -705,6 +894,7 @@ theorem acyclic : Acyclic s.unmined :=
     simp [s] at hu hp
     rcases hu with rfl | rfl | rfl <;> rcases hp with rfl | rfl | rfl <;> simp_all [t2, t3, t4, UTx.spends]⟩
 
+example : removeConflictDFS 4 s 2 = removeWithDescendants s 2 := by decide
 /-- a rejection of T2 removes T2 and T3 and keeps T4 -/
 example : ((publish s t2 .rejected).1.unmined.map (·.id), (publish s t2 .rejected).2) = ([4], false) := by decide
 /-- a failed hand-over of the new T5 leaves the store as it was -/
